@@ -45,6 +45,26 @@ theorem codec_clear_rule :
     Extracted.clearExempt = ["is_arithmetic", "is_enum", "is_same:void const*", "is_std_string", "is_same:std::string_view"] ∧
     Extracted.clearsCache = true ∧ Extracted.encodeStartsAtZero = true := by decide
 
+/-- … and *where* it clears: at the start of the size pass, before anything is sized (`sizeStatementAt true`), while
+    the encode pass only reads the cache (`const&`, no `clear`/`push_back`/`assign`) — so a statement dropped or
+    rejected between the two passes leaves nothing behind (`C04_drop_leaves_nothing`; the other placement is refuted by
+    `C04_clear_position_matters`) -/
+theorem codec_clear_position :
+    Extracted.clearAtStart = true ∧ Extracted.encodeCacheConst = true ∧ Extracted.encodeMutatesCache = false := by decide
+
+/-- C04 after any history of logged and dropped statements, for the record layout as extracted -/
+theorem C04_extracted_after_drops (old : Codec.Mem) (c : Codec.Cache) (ops : List Codec.StmtOp) (args : List Codec.Arg)
+    (pos : Nat) (dyn : Bool) (hdr lvl rest : Codec.Bytes) (h : Codec.wfL args = true)
+    (hh : hdr.length = Extracted.frame.header) (hl : lvl.length = if dyn then Extracted.frame.lvlBytes else 0) :
+    ∃ record, Codec.writeRecord old (Codec.cacheAfter Extracted.clearAtStart c ops) pos hdr args lvl = some record ∧
+      record.length = Codec.reserved Extracted.frame c args dyn ∧
+      Codec.readRecord Extracted.frame (Codec.shapesOf args) pos dyn (record ++ rest) =
+        some (hdr, Codec.viewL args, lvl, rest) := by
+  rw [codec_clear_position.1]
+  obtain ⟨record, h1, h2, h3, h4⟩ :=
+    Codec.C04_framing_after_drops old Extracted.frame c ops args pos dyn hdr lvl rest h hh hl
+  exact ⟨record, h1, by rw [h2, h3], h4⟩
+
 /-- the escape is backslash, `x`, high nibble, low nibble in upper-case hex; bytes ≥ 0x80 fail the predicate under
     either signedness of `char`; the sanitiser runs only for statements with a string related argument -/
 theorem codec_escape_format :
